@@ -16,6 +16,7 @@ from gv.astutil import norm_stmt
 from gv.astutil import stmts_of
 from gv.astutil import walk_body
 from gv.cfg import cfg_of
+from gv.props.shared import merge_order
 from gv.props.shared import unfolded
 from gv.props import describe
 from gv.props.shared import branch_conditions
@@ -114,20 +115,50 @@ def check_loops(ctx: Ctx) -> None:
             dn = cfg.node_of(defs[0])
             ok = cfg.path(start, rn, avoid={dn}) is None and cfg.path(dn, cn, avoid={rn}) is None and cfg.path(rn, dn, avoid={ln}) is None
             ctx.ob("6.2-snapshot", con, ok, "in each iteration the snapshot must be taken before the disciplines run and the residuals computed after", node=defs[0], stmt="snapshot -> run -> residuals")
-        # 6.3 exits
-        breaks = [s for s in ast.walk(lp) if isinstance(s, ast.Break)]
-        rets = [s for s in ast.walk(lp) if isinstance(s, ast.Return)]
-        ctx.ob("6.3-exit", con, len(breaks) == 1 and not rets and const_value(lp.test) is True, "the iteration loop must be `while True` left by a single break", node=lp, stmt="while True with one break")
-        for b in breaks:
-            bn = cfg.node_of(b)
-            conds = [(t, v) for t, v in branch_conditions(cfg, bn) if t != ln and any(sub is cfg.ast[t] for sub in ast.walk(lp))]
-            ok = len(conds) == 1 and conds[0][1] and dotted(cfg.ast[conds[0][0]].test) == "self._stop_criterion_is_reached"
-            ctx.ob("6.3-exit", con, ok, "the loop may only be left when self._stop_criterion_is_reached", node=b)
-            if ok:
-                tn = conds[0][0]
-                ok2 = cfg.path(start, tn, avoid={cn}) is None
-                ctx.ob("6.3-exit", con, ok2, "the stop criterion must be evaluated after the residuals of the current iteration have been computed", node=cfg.ast[tn], stmt="criterion after _compute_residuals")
-        # the update of the couplings comes after the criterion (a converged point is returned as is)
+        # 6.3 exits: the loop is left only when the stop criterion, read after the residuals of the iteration, holds.
+        # The criterion may be tested directly (`if crit: break` / `return`) or through a local and the loop test
+        # (`done = crit` ... `while not done`): tests are unfolded before they are classified.
+        from gv.dataflow import SymValues
+
+        sv = SymValues(f)
+        CRIT = "self._stop_criterion_is_reached"
+
+        def outcome(test_expr) -> int:
+            """+1: the test is the criterion; -1: its negation; 0: something else."""
+            alts = set(sv.texts(test_expr)) if sv.cfg.has(test_expr) else {norm_stmt(test_expr)}
+            alts = {a_.replace("(", "").replace(")", "") for a_ in alts}
+            if alts and alts <= {CRIT, "True"} and CRIT in alts:
+                return 1
+            if alts and alts <= {f"not {CRIT}", "not False", "True"} and f"not {CRIT}" in alts:
+                return -1
+            return 0
+
+        def under_criterion(node_id: int) -> bool:
+            for t, v in branch_conditions(cfg, node_id):
+                if t == ln or not any(sub is cfg.ast[t] for sub in ast.walk(lp)):
+                    continue
+                o = outcome(cfg.ast[t].test)
+                if (o == 1 and v) or (o == -1 and not v):
+                    return True
+            return False
+
+        exits = [s_ for s_ in ast.walk(lp) if isinstance(s_, (ast.Break, ast.Return))]
+        by_test = const_value(lp.test) is not True
+        if by_test:
+            ctx.ob("6.3-exit", con, outcome(lp.test) == -1, f"the loop test `{norm_stmt(lp.test, 40)}` must be the negation of the stop criterion read in the previous iteration (or `while True` left by a break)", node=lp, stmt="loop left only when the criterion holds")
+        else:
+            ctx.ob("6.3-exit", con, bool(exits), "`while True` without any exit", node=lp, stmt="loop left only when the criterion holds")
+        for b in exits:
+            ctx.ob("6.3-exit", con, under_criterion(cfg.node_of(b)), "the loop may only be left when self._stop_criterion_is_reached", node=b)
+        reads = [n_ for n_ in ast.walk(lp) if isinstance(n_, ast.Attribute) and dotted(n_) == CRIT]
+        ctx.ob("6.3-exit", con, bool(reads) and not any(sub in reads for sub in ast.walk(lp.test)), "the stop criterion must be read inside the loop, after the iteration's residuals (read in the loop test it is the value left by the previous execution)", node=lp, stmt="criterion read in the body")
+        for r_ in reads:
+            if any(sub is r_ for sub in ast.walk(lp.test)):
+                continue
+            tn = cfg.node_of(r_)
+            ok2 = cfg.path(start, tn, avoid={cn}) is None
+            ctx.ob("6.3-exit", con, ok2, "the stop criterion must be evaluated after the residuals of the current iteration have been computed", node=cfg.ast[tn], stmt="criterion after _compute_residuals")
+        # 6.3 update
         upd = [c for c in ast.walk(lp) if isinstance(c, ast.Call) and last_attr(c) == "_update_local_data_from_array"]
         ctx.need(len(upd) == 1, f"{cls}._execute: coupling update not found")
         un = cfg.node_of(upd[0])
@@ -168,6 +199,10 @@ def check_predicate(ctx: Ctx) -> None:
     norm_calls = rules.self_calls(f, "_compute_normalized_residual_norm")
     rets = [s for s in stmts_of(f) if isinstance(s, ast.Return)]
     ok = len(rets) == 1 and isinstance(rets[0].value, ast.BoolOp) and isinstance(rets[0].value.op, ast.Or) and len(rets[0].value.values) == 2
+    if not ok and len(rets) == 1:
+        # `any(self._warn_convergence_criteria())`: the disjunction of the two criteria
+        v_ = rets[0].value
+        ok = isinstance(v_, ast.Call) and dotted(v_.func) == "any" and len(v_.args) == 1 and all(isinstance(a_, ast.Call) and last_attr(a_) == "_warn_convergence_criteria" for a_ in (unfolded(f, v_.args[0]) or [v_.args[0]]))
     ctx.ob("6.3-predicate", con, ok, "the stop criterion is `residual is small or maximum number of iterations reached`", node=(rets or [f])[0])
     ok = len(norm_calls) == 1 and rets and cfg.dominates(cfg.node_of(norm_calls[0]), cfg.node_of(rets[0]))
     ctx.ob("6.3-predicate", con, bool(ok), "the normed residual must be (re)computed before it is tested", node=(norm_calls or [f])[0])
@@ -253,14 +288,18 @@ def check_composition(ctx: Ctx) -> None:
     # the chain's own base settings (tolerance, iteration budget, ...) win over the inner settings model
     g = ctx.index.method(CHN, "MDAChain", "__create_inner_mda_settings")
     cong = cname(CHN, "MDAChain", "__create_inner_mda_settings")
-    merges = [st for st in stmts_of(g) if isinstance(st, ast.Assign) and isinstance(st.value, ast.BinOp) and isinstance(st.value.op, ast.BitOr)]
-    ok = len(merges) == 1
+    # the mapping unpacked into the inner settings model: **<name>
+    rets = [st for st in stmts_of(g) if isinstance(st, ast.Return)]
+    merged = [dotted(k.value) for r_ in rets if isinstance(r_.value, ast.Call) for k in r_.value.keywords if k.arg is None and isinstance(k.value, ast.Name)]
+    ok = len(rets) == 1 and len(merged) == 1
+    merges = []
     if ok:
-        right = merges[0].value.right
-        left = merges[0].value.left
-        ok = isinstance(right, ast.DictComp) and norm_stmt(right.generators[0].iter) == "self.settings" and "BaseMDASettings.model_fields" in norm_stmt(right) and "inner_mda_settings" in norm_stmt(left)
-        rets = [st for st in stmts_of(g) if isinstance(st, ast.Return)]
-        ok = ok and len(rets) == 1 and isinstance(rets[0].value, ast.Call) and any(k.arg is None and dotted(k.value) == dotted(merges[0].targets[0]) for k in rets[0].value.keywords)
+        order = merge_order(g, merged[0])
+        merges = [st for st in stmts_of(g) if isinstance(st, ast.Assign) and dotted(st.targets[0]) == merged[0]]
+        ok = bool(order) and len(order) == 2
+        if ok:
+            low, high = order
+            ok = "inner_mda_settings" in norm_stmt(low) and isinstance(high, ast.DictComp) and norm_stmt(high.generators[0].iter) == "self.settings" and "BaseMDASettings.model_fields" in norm_stmt(high)
     ctx.ob("6.5-inner-settings", cong, bool(ok), "in `inner | chain` the right operand wins: the tolerance and iteration budget requested on the chain must override the defaults of the inner settings model, otherwise the inner MDAs stop early and the chain does not converge to the requested tolerance", node=(merges or [g])[0], stmt="chain base settings override the inner settings model")
 
 
@@ -328,18 +367,15 @@ def check_newton_parity(ctx: Ctx) -> None:
     # which operand comes from self.io.data (outputs after the run) and which from the input_data parameter
     p = f.args.args[1].arg
 
-    def origin(name):
-        for s in stmts_of(f):
-            if isinstance(s, ast.Assign) and dotted(s.targets[0]) == name:
-                ns = {dotted(a) for c in ast.walk(s.value) if isinstance(c, ast.Call) for a in c.args}
-                if "self.io.data" in ns:
-                    return "out"
-                if p in ns:
-                    return "in"
-        return None
+    def origin(operand):
+        """'out' / 'in': the operand (a local, or the expression itself) is converted from the live data / the inputs."""
+        kinds = set()
+        for alt in unfolded(f, operand) or [operand]:
+            ns = {dotted(a) for c in ast.walk(alt) if isinstance(c, ast.Call) for a in c.args}
+            kinds.add("out" if "self.io.data" in ns else ("in" if p in ns else None))
+        return kinds.pop() if len(kinds) == 1 else None
 
-    l, r = dotted(subs[0].value.left), dotted(subs[0].value.right)
-    s_a = {("out", "in"): 1, ("in", "out"): -1}.get((origin(l), origin(r)))
+    s_a = {("out", "in"): 1, ("in", "out"): -1}.get((origin(subs[0].value.left), origin(subs[0].value.right)))
     ctx.ob("6.5-residual-def", con_a, s_a is not None, "the residual must be the difference between the outputs after the run (self.io.data) and the inputs before it", node=subs[0])
     # b. residual in the assembly
     g = ctx.index.method(ASM, "JacobianAssembly", "residuals")
@@ -387,7 +423,10 @@ def check_newton_parity(ctx: Ctx) -> None:
     ctx.ob("6.5-newton", con_e, ok, f"Newton: y_new = y - (dR/dy)^-1 R. The product of the right-hand-side sign ({s_rhs}) and the update sign ({s_upd}) must be -1; otherwise the iterate moves away from the solution", node=upd[0], slots={"rhs": s_rhs, "update": s_upd})
     ctx.ob("6.5-newton", con_d, s_rhs is not None, "the right-hand side of the Newton system must be +/- residuals", node=lp[0], stmt="rhs = -residuals")
     # the base point of the update is the input couplings captured before the run
-    base = dotted(it.left) if isinstance(it, ast.BinOp) else None
+    base = None
+    if isinstance(it, ast.BinOp):
+        # y + step and step + y are the same point; y - step has its base on the left
+        base = dotted(it.right) if isinstance(it.op, ast.Add) and dotted(it.left) == step else dotted(it.left)
     bdefs = [s for s in stmts_of(e) if isinstance(s, ast.Assign) and dotted(s.targets[0]) == base]
     cfg_e = cfg_of(e)
     runs = [c for c in walk_body(e) if isinstance(c, ast.Call) and last_attr(c) == "_execute_disciplines_and_update_local_data"]
@@ -405,7 +444,10 @@ def check_newton_parity(ctx: Ctx) -> None:
     ctx.ob("6.5-linearize-at-snapshot", cname(NR, "MDANewtonRaphson", "__compute_newton_step"), ok, "the disciplines must be linearised at the given data before the Newton system is assembled with the same data", node=(lin or [m])[0])
     rv = kwarg(cs[0], "residuals") if cs else None
     rv_alts = (unfolded(m, rv) or [rv]) if rv is not None else []
-    ok = bool(rv_alts) and all(isinstance(a_, ast.Call) and last_attr(a_) == "get_current_resolved_residual_vector" for a_ in rv_alts)
+    def _strip_copy(a_):
+        return a_.func.value if isinstance(a_, ast.Call) and isinstance(a_.func, ast.Attribute) and a_.func.attr == "copy" and not a_.args else a_
+
+    ok = bool(rv_alts) and all(isinstance(_strip_copy(a_), ast.Call) and last_attr(_strip_copy(a_)) == "get_current_resolved_residual_vector" for a_ in rv_alts)
     ctx.ob("6.5-newton", cname(NR, "MDANewtonRaphson", "__compute_newton_step"), bool(ok), "the Newton system must be solved for the residual vector just computed", node=(cs or [m])[0], stmt="residuals=current residual vector")
 
 
